@@ -540,6 +540,7 @@ def walk(op: dict, before: dict):
 
 
 HALF_OPEN = {"n": 0}
+POWER_CYCLE = {"n": 0}   # commands executed on a session that had survived a power cycle of the target (observation)
 
 
 def ctr_half_open(case: dict):
@@ -554,6 +555,7 @@ def oracle(case: dict, snaps: List[dict], stats: List[str]) -> Optional[Tuple[di
     ever: List[set] = [set() for _ in snaps[0]["nodes"]]   # remote session ids ever seen live per node
     dead: List[set] = [set() for _ in snaps[0]["nodes"]]
     orphans: List[Tuple[int, str]] = []                    # (target, session id) of logins whose reply was dropped
+    cycled: List[set] = [set() for _ in snaps[0]["nodes"]]  # ids of sessions that saw their node not ON since they were opened
     for i, (op, st) in enumerate(zip(ops, stats)):
         if st.startswith("raised"):
             return ({"kind": "raised", "op": op["op"], "exc": st.split(":")[1]}, f"{op_line(op)} raised {st}", i)
@@ -629,10 +631,30 @@ def oracle(case: dict, snaps: List[dict], stats: List[str]) -> Optional[Tuple[di
                 why = "logged in locally" if (before["nodes"][op["y"]]["loc"] or (None, None))[1] == op["u"] else "not logged in"
                 return ({"kind": "local-credentials-not-checked", "op": k, "user-was": why},
                         f"op {i} {op_line(op)}: accepted without the current password of an enabled account (user {why})", i)
+        # which ending event needs which service: the direct logout and the local logout need the node ON and its user-session-manager
+        # RUNNING — otherwise nothing changes; a password change needs the user-manager (not the session manager)
+        if k in ("usmlogout", "llogout") and op["y"] < len(before["nodes"]):
+            b = before["nodes"][op["y"]]
+            if (b["power"] != "ON" or b["USM"] != "RUNNING") and (after["nodes"] != before["nodes"] or st == "success"):
+                return ({"kind": "logout-without-running-session-manager", "op": k}, f"op {i} {op_line(op)}: took effect although the "
+                        f"user-session-manager of node {op['y']} was {b['USM']} / the node {b['power']}", i)
+        if k == "chpw" and st == "success":
+            b = before["nodes"][op["y"]]
+            if b["power"] != "ON" or b["UM"] != "RUNNING":
+                return ({"kind": "password-change-without-user-manager", "op": k}, f"op {i} {op_line(op)} answered success", i)
         if k in ("llogin", "usmlogin") and st == "success":
             b = before["nodes"][op["y"]]
             if not _cred_ok(b, op["u"], op["p"]):
                 return ({"kind": "login-without-valid-credentials", "op": k}, f"op {i} {op_line(op)} answered success", i)
+        # observation (not a violation, see DESIGN 9.6.C16 addendum 4): sessions survive a power cycle of their node
+        for j, a in enumerate(after["nodes"]):
+            live = {r[0] for r in a["rem"]}
+            cycled[j] &= live
+            if a["power"] != "ON":
+                cycled[j] |= live
+        if k == "rcmd" and op.get("cmd", FILE)["op"] == "file" and op["y"] < len(before["nodes"]) and \
+                after["nodes"][op["y"]]["files"] != before["nodes"][op["y"]]["files"] and TOUCHED and TOUCHED[0][1] in cycled[op["y"]]:
+            POWER_CYCLE["n"] += 1
         # the answer of a remote command tells what happened on the target: success only if executed; an executed command is
         # answered success unless the answer could not travel back (reply direction blocked between the hosts)
         if k == "rcmd" and op.get("cmd", FILE)["op"] == "file":
@@ -1058,6 +1080,8 @@ def gen_case(rng: Rng, max_ops: int = 30) -> dict:
         ops.append({"op": "rcmd", "x": 0, "y": 1, "cmd": {"op": "rcmd", "y": 2, "cmd": dict(FILE)}})
     elif story == 7:               # the local command path: credentials are checked with every command
         ops += local_story(rng, cfg, known)
+    if rng.chance(1, 6):           # a session across a power cycle
+        ops += power_cycle_story(rng, cfg)
     if cfg["topo"] in ("routed", "routed2") and rng.chance(1, 2):
         for o in (transport_story(rng, cfg) if rng.chance(1, 2) else lower_layer_story(rng, cfg)):
             track(known, o)
@@ -1144,6 +1168,48 @@ def route_alphabet() -> List[dict]:
         {"op": "chpw", "y": 1, "u": "admin", "old": "admin", "new": "pw1"},
         {"op": "rcmd", "x": 1, "y": 0},
     ]
+
+
+def ends_alphabet() -> List[dict]:
+    """Bounded-exhaustive family for "which session-ending event works in which service state" (target = node 1, after a remote login
+    0 -> 1 and a local login on 1): every lifecycle verb of the user-session-manager, the terminal stopped, then time-out, password
+    change, direct logout, client logoff, local logout, and a command on the session."""
+    usm = "user-session-manager"
+    return [
+        {"op": "svc", "y": 1, "s": usm, "v": "stop"},
+        {"op": "svc", "y": 1, "s": usm, "v": "pause"},
+        {"op": "svc", "y": 1, "s": usm, "v": "resume"},
+        {"op": "svc", "y": 1, "s": usm, "v": "restart"},
+        {"op": "svc", "y": 1, "s": usm, "v": "disable"},
+        {"op": "svc", "y": 1, "s": "terminal", "v": "stop"},
+        {"op": "tick"},
+        {"op": "rcmd", "x": 0, "y": 1},
+        {"op": "chpw", "y": 1, "u": "admin", "old": "admin", "new": "admin"},
+        {"op": "usmlogout", "y": 1, "i": 0},
+        {"op": "rlogoff", "x": 0, "y": 1},
+        {"op": "llogout", "y": 1},
+    ]
+
+
+ENDS_PREFIX = [{"op": "rlogin", "x": 0, "y": 1, "u": "admin", "p": "admin"}, {"op": "llogin", "y": 1, "u": "admin", "p": "admin"}]
+
+
+def power_cycle_story(rng: Rng, cfg: dict) -> List[dict]:
+    """A session younger than its time-out, the target (or the client) power-cycled — shutdown / reset, ticks until it is ON again —
+    then the session is used."""
+    n = cfg["n"]
+    y = rng.below(n)
+    x = (y + 1 + rng.below(n - 1)) % n
+    who = rng.choice([y, y, x])
+    ops = [{"op": "rlogin", "x": x, "y": y, "u": "admin", "p": "admin"}, {"op": "rcmd", "x": x, "y": y, "cmd": dict(FILE)}]
+    if rng.chance(1, 2):
+        ops += [{"op": "reset", "y": who}] + [{"op": "tick"}] * (cfg["sd"] + cfg["su"] + rng.below(2))
+    else:
+        ops += [{"op": "shutdown", "y": who}] + [{"op": "tick"}] * (cfg["sd"] + rng.below(2)) + [{"op": "startup", "y": who}] + \
+               [{"op": "tick"}] * (cfg["su"] + rng.below(2))
+    ops += [{"op": "rcmd", "x": x, "y": y, "cmd": dict(FILE)}, {"op": "rlogin", "x": x, "y": y, "u": "admin", "p": "admin"},
+            {"op": "rcmd", "x": x, "y": y, "cmd": dict(FILE)}]
+    return ops
 
 
 def self_alphabet() -> List[dict]:
